@@ -185,6 +185,23 @@ func c03Scenario(c *Ctx, idx int, r *Rng) {
 		return b
 	}
 	files := []string{"a.bin", "b.bin", "dir/c.bin", "d.dat", "dir/sub/e.bin"}
+	if r.Chance(18) {
+		// somebody else holds locks on some of the files and lock verification is NOT configured for the server
+		// (the "unknown" state): the locks are worth a warning only — the push goes through, and then every object
+		// has to be on the server, those of the locked paths included
+		for _, rm := range remotes {
+			rm.srv.mu.Lock()
+			for k, f := range files {
+				if r.Chance(40) {
+					rm.srv.locks = append(rm.srv.locks, lfsLock{ID: fmt.Sprintf("B%d", k), Path: f, Owner: "bob"})
+				}
+			}
+			rm.srv.user = "alice"
+			rm.srv.mu.Unlock()
+		}
+		log("locks of another user on the server, locksverify unset")
+		c.R.Count("push.others-locks-verification-unknown")
+	}
 	branches := []string{"master"}
 	tags := 0
 	commit := func(msg string) {
@@ -810,7 +827,7 @@ func c03Missing(c *Ctx, idx int, r *Rng) {
 	}
 	// how the hook ends, against the decision model PushReport.ok: what the scenario planted decides
 	{
-		mc := damage != "bitflip"             // absent, or a file of the wrong size: not uploadable, and not on the server
+		mc := damage != "bitflip"                     // absent, or a file of the wrong size: not uploadable, and not on the server
 		other := damage == "bitflip" || refused != "" // content under the wrong id is refused by server / agent; a refused or lost PUT
 		b01 := func(b bool) string {
 			if b {
